@@ -785,6 +785,11 @@ def programs(tier):
         # @wip (own and inherited): a pending step is accepted as pending_warn - a status whose name differs from
         # its normalized name, so a report that prints the normalized status no longer mirrors the model
         P.F((P.S(("pass", "pass"), ("wip",)), P.R((P.S(("pass", "pass")), P.O((("pass",),))), tags=("wip",)))),
+        # background steps that carry a placeholder of the outlines below them: behave builds a rendered COPY of the
+        # background steps per examples row (same location as the template step, different name)
+        P.F((P.O((("pass",), ("pass",))), P.O((("pass",),), tags=t)), bg=("<o0>",)),
+        P.F((P.S(("pass",)), P.R((P.O((("pass",), ("pass",))), P.O((("pass",),))), bg=("<o0>", "pass")))),
+        P.F((P.O((("pass",),)), P.R((P.O((("pass",), ("pass",))),), bg=("<o0>",))), bg=("pass", "<o0>")),
     ]
     # "convert": a typed parameter whose converter raises - the step is matched WITH an error (no arguments extracted)
     outs = ("fail", "error", "pending", "undefined", "skip", "abort", "convert") if quick else P.NONPASS
